@@ -144,6 +144,7 @@ def houseDepositO (s : State) (creator : Nat) (tk : Tk) (market : Nat) (amount :
   chk (m.status == MS_ACTIVE)
   chk (b.status == OB_ACTIVE)
   chk (decide (b.partCount < s.params.obMaxPart))
+  chk (b.getPart (b.partCount + 1)).isNone                     -- "id already exists" sanity check
   let liquidity := amount - fee
   let s2 ← bankSend s1 depositor ACC_POOL liquidity
   let s3 ← bankSend s2 depositor ACC_HOUSEFEE fee
@@ -196,6 +197,12 @@ deriving Repr, Inhabited
 
 def multOk (m : Dec) : Bool := decide (0 < m.raw) && decide (m.raw ≤ PREC)
 
+/-- the bet record stored by a successful wager: the recorded stake is the sum of the backing parts -/
+def newBet (s : State) (creator uid : Nat) (pl : WagerPayload) (ov : Dec) (fulfs : List Fulf) : Bet :=
+  { uid := uid, id := s.betCount + 1, creator := creator, market := pl.market, odds := pl.odds,
+    oddsVal := ov, amount := (fulfs.map (·.bet)).sum, fee := s.params.betFee, status := BS_PLACED, result := BR_PENDING,
+    mult := pl.mult, createdAt := s.time, fulfs := fulfs }
+
 /-- MsgWager -/
 def wagerO (s : State) (creator : Nat) (tk : Tk) (uid : Nat) (amount : Int) (pl : WagerPayload) : Option State := do
   chk (decide (0 < amount))                                                 -- WagerValidation
@@ -222,9 +229,7 @@ def wagerO (s : State) (creator : Nat) (tk : Tk) (uid : Nat) (amount : Int) (pl 
   let r ← processWager b pl.odds betId ov pl.mult m.odds pl.allOdds (s.params.obThreshold : Nat) amt payoutProfit
   let s1 ← bankSend s creator ACC_BETFEE fee
   let s2 ← bankSend s1 creator ACC_POOL r.2.2
-  let bet : Bet := { uid := uid, id := betId, creator := creator, market := pl.market, odds := pl.odds,
-                     oddsVal := ov, amount := (r.2.1.map (·.bet)).sum, fee := fee, status := BS_PLACED, result := BR_PENDING,
-                     mult := pl.mult, createdAt := s.time, fulfs := r.2.1 }
+  let bet := newBet s creator uid pl ov r.2.1
   pure { (setBook s2 r.1) with bets := upsert Bet.key bet s2.bets,
                                pending := upsert (fun x => [x.1, x.2.1]) (pl.market, betId, uid, creator) s2.pending,
                                betCount := betId }
